@@ -272,6 +272,60 @@ def c13(ctx):
             res.disagree("FMT", case, m, chk, d)
 
 
+def c13_deep_then_shallow(ctx):
+    """a checker object first asked from a stack so deep that compiling the pattern runs into the
+    recursion limit (whatever it answers there), then asked the same question from the top of the
+    stack: THAT answer is the grammar's, whatever happened before. Patterns are fresh each time
+    (nothing, the `re` module's own cache included, has seen them before)."""
+    res = ctx.res
+    import sys
+
+    def frames():
+        f, n = sys._getframe(), 0
+        while f is not None:
+            f, n = f.f_back, n + 1
+        return n
+    limit = sys.getrecursionlimit()
+    k = ctx.seed * 1000
+    for spec, tag, fc in [("class", None, F.FormatChecker())] + [("draft", t, impl.DRAFT_FC[t]) for t in DRAFT_TAGS]:
+        if "regex" not in fc.checkers:
+            continue
+        for margin in list(range(3, 60, 2)) + [70, 90, 120]:
+            k += 1
+            s = ctx.r.choice(["^(?:(?:[a-f]|q%d)*x){%d}$", "((((a%d))))b{%d}", "[a-z]+(\\d{2})?z%d{%d}", "(?P<n>k%d)+(?P=n){%d}", "(unclosed%d{%d}", "a%d{3,%d}{"]) % (k, margin)
+
+            def dive(n):
+                if n <= 0:
+                    try:
+                        return fc.conforms(s, "regex")
+                    except BaseException:      # noqa: BLE001  (a RecursionError this deep is the interpreter's business)
+                        return None
+                return dive(n - 1)
+            re.purge()
+            try:
+                dive(limit - frames() - margin)
+            except RecursionError:
+                pass
+            got = fc.conforms(s, "regex")
+            try:
+                re.compile(s)
+                want = True
+            except Exception:       # noqa: BLE001
+                want = False
+            res.note(hash(("c13deep", spec, tag, s)), True, None)
+            if got != want:
+                res.fail("format:history-dependent:regex",
+                         "regex: after the same question was asked with about %d frames left, conforms(%r) = %r; re.compile says %r" % (margin, s, got, want),
+                         {"fc": spec, "cls": tag, "name": "regex", "inst": s, "frames_left": margin})
+                break
+    res.distribution["deep-then-shallow questions"] += 1
+
+
+def c13_all(ctx):
+    c13_deep_then_shallow(ctx)
+    c13(ctx)
+
+
 def c12(ctx):
     res = ctx.res
     for _ in range(ctx.n(2500)):
@@ -488,8 +542,85 @@ def c12_histories(ctx):
                 break
 
 
+def c12_module_validate(ctx):
+    """(c) the module-level `validate()` called several times on the SAME schema object, with and
+    without a format checker, in both orders: formats are checked in exactly the calls that pass a
+    checker. (d) a format function that raises a LISTED exception chained to another one
+    (`raise Listed(...) from inner`, an implicit `__context__`, `from None`): the error's cause is the
+    exception the function raised — that object — never what it was chained to."""
+    res, r = ctx.res, ctx.r
+    V = impl.V
+    for _ in range(ctx.n(40)):
+        tag = r.choice(DRAFT_TAGS)
+        cls = impl.DRAFTS[tag]
+        fc = F.FormatChecker(formats=())
+        fc.checks("even")(lambda x: not isinstance(x, int) or isinstance(x, bool) or x % 2 == 0)
+        schema = r.choice([{"format": "even"}, {"properties": {"a": {"format": "even"}}}, {"items": {"format": "even"}}])
+        wrap = (lambda x: x) if "format" in schema else (lambda x: {"a": x}) if "properties" in schema else (lambda x: [x])
+        calls = [(r.choice([3, 4, 5, "s"]), r.random() < 0.5) for _k in range(r.randrange(2, 7))]
+        case = {"cls": tag, "schema": schema, "calls": [[x, w] for x, w in calls]}
+        res.note(hash(codec.canon(["c12module", case])), True, None)
+        explicit = r.random() < 0.5
+        for n, (x, with_fc) in enumerate(calls):
+            kw = {"format_checker": fc} if with_fc else {}
+            if explicit:
+                kw["cls"] = cls
+            try:
+                with warnings.catch_warnings():
+                    warnings.simplefilter("ignore")
+                    V.validate(wrap(x), schema, **kw)
+                got = True
+            except E.ValidationError:
+                got = False
+            want = (not with_fc) or not (isinstance(x, int) and x % 2 == 1)
+            if got != want:
+                res.fail("format-switch:module-validate-history",
+                         "call %d, validate(%r, schema%s): %s; calls before it on the same schema object: %r"
+                         % (n, wrap(x), ", format_checker=fc" if with_fc else "", "accepted" if got else "rejected", calls[:n]), dict(case, at=n))
+                break
+    # (d)
+    for _ in range(ctx.n(40)):
+        tag = r.choice(DRAFT_TAGS)
+        cls = impl.DRAFTS[tag]
+        style = r.choice(["from-inner", "from-unlisted", "context", "from-none", "plain"])
+        raised = []
+
+        def func(x, _style=style):
+            inner = KeyError("inner") if _style != "from-unlisted" else UnlistedError("inner")
+            exc = ListedError("outer")
+            raised.append(exc)
+            if _style in ("from-inner", "from-unlisted"):
+                raise exc from inner
+            if _style == "context":
+                try:
+                    raise inner
+                except KeyError:
+                    raise exc
+            if _style == "from-none":
+                raise exc from None
+            raise exc
+        fc = F.FormatChecker(formats=())
+        fc.checks("chained", raises=(ListedError, KeyError))(func)
+        case = {"cls": tag, "style": style}
+        res.note(hash(("c12chain", tag, style, _)), True, None)
+        try:
+            fc.check("x", "chained")
+            res.fail("listed-exception:not-reported", "the function raised a listed exception; check() returned", case)
+            continue
+        except E.FormatError as fe:
+            if fe.cause is not raised[-1]:
+                res.fail("listed-exception:cause-is-not-what-was-raised",
+                         "the function raised %r (%s); FormatError.cause is %r" % (raised[-1], style, fe.cause), case)
+                continue
+        errs = list(cls({"format": "chained"}, format_checker=fc).iter_errors("x"))
+        if len(errs) != 1 or errs[0].cause is not raised[-1]:
+            res.fail("listed-exception:cause-is-not-what-was-raised",
+                     "the function raised %r (%s); the ValidationError's cause is %r" % (raised[-1], style, errs and errs[0].cause), case)
+
+
 def c12_all(ctx):
     c12_histories(ctx)
+    c12_module_validate(ctx)
     c12(ctx)
 
 
